@@ -71,6 +71,8 @@ type e2e struct {
 	emptyAns int
 	cutAll   []byte // the message set of the response being cut
 	cutFirst int    // end of the first record (of the first compressed batch) of that message set
+	partition int // the Reader's partition
+	wrongDeliv bool // a delivered message carried another partition number
 	aux      map[int]bool // connections that are not the fetcher's (Reader.SetOffsetAt dials its own)
 }
 
@@ -82,10 +84,25 @@ func newE2E(r *rand.Rand, ver int, layout fetchfake.Layout, opts fetchfake.GenOp
 	s := &e2e{r: r, ver: ver, layout: layout, opts: opts, log: layout.Records(), first: first, last: last, maxBytes: maxBytes,
 		feats: map[string]bool{}, cs: map[int]*e2eConn{}}
 	s.fake = fetchfake.NewFake(e2eTopic, ver, first, last)
+	// the topic has 1..4 partitions; the Metadata answer lists them (and the brokers) in a random order;
+	// the Reader is bound to one of them, the only one this fake holds data for
+	np := 1 + r.Intn(4)
+	order := make([]int32, np)
+	for i, j := range r.Perm(np) {
+		order[i] = int32(j)
+	}
+	s.partition = r.Intn(np)
+	s.fake.SetPartitions(int32(s.partition), order, r.Intn(2) == 0)
+	s.feats[fmt.Sprintf("partitions=%d", np)] = true
+	for i, pid := range order {
+		if int(pid) != i {
+			s.feats["metadata-partitions-out-of-id-order"] = true
+		}
+	}
 	s.rd = kafka.NewReader(kafka.ReaderConfig{
 		Brokers:          fetchfake.BrokerAddrs,
 		Topic:            e2eTopic,
-		Partition:        0,
+		Partition:        s.partition,
 		Dialer:           &kafka.Dialer{DialFunc: s.fake.Dial},
 		MinBytes:         1,
 		MaxBytes:         maxBytes,
@@ -221,6 +238,9 @@ func (s *e2e) quiesce() bool {
 			ms := e2eMsgString(m)
 			s.tok("D:%s", ms)
 			s.deliv = append(s.deliv, ms)
+			if m.Partition != s.partition || m.Topic != e2eTopic {
+				s.wrongDeliv = true
+			}
 			s.pos()
 		case errors.Is(err, context.DeadlineExceeded):
 		case errors.As(err, &ke):
@@ -551,6 +571,12 @@ func (s *e2e) finish(op string, extraFeats ...string) {
 	for _, f := range extraFeats {
 		s.feats[f] = true
 	}
+	if wp := s.fake.WrongPartitions(); len(wp) > 0 {
+		s.feats["request-for-another-partition"] = true
+	}
+	if s.wrongDeliv {
+		s.feats["message-of-another-partition"] = true
+	}
 	var fs []string
 	for f := range s.feats {
 		fs = append(fs, f)
@@ -693,6 +719,9 @@ func (s *e2e) blockingRead(nb int) bool {
 	ms := e2eMsgString(r.m)
 	s.tok("D:%s", ms)
 	s.deliv = append(s.deliv, ms)
+	if r.m.Partition != s.partition || r.m.Topic != e2eTopic {
+		s.wrongDeliv = true
+	}
 	s.pos()
 	return true
 }
